@@ -206,7 +206,7 @@ structure TIter where
   deriving Repr
 
 def TIter.cur (it : TIter) : Option BEntry := if it.init then it.pos.bind (fun i => it.es[i]?) else none
-def TIter.valid (it : TIter) : Bool := match it.cur with | some e => !e.key.isEmpty | none => false
+def TIter.valid (it : TIter) : Bool := it.cur.isSome
 def TIter.first (it : TIter) : TIter := { it with pos := if it.es.isEmpty then none else some 0, init := true }
 def TIter.last (it : TIter) : TIter := { it with pos := if it.es.isEmpty then none else some (it.es.length - 1), init := true }
 def TIter.seek (it : TIter) (t : Bytes) : TIter × Bool :=
